@@ -76,11 +76,13 @@ setrc(void * cookie, void * ptr, size_t rc)
 	}
 }
 
+static int nocb;		/* this heap was made without a record-cookie callback (no handles, no notifications) */
 static void
 vt_notes(void)
 {
 	size_t i;
 
+	if (nocb) fprintf(vt_out, ",\"nocb\":true");
 	fprintf(vt_out, ",\"notes\":[");
 	for (i = 0; i < nnotes; i++)
 		fprintf(vt_out, "%s[%lld,%lld]", i ? "," : "", notes[i][0], notes[i][1]);
@@ -123,6 +125,7 @@ run_heap(FILE * f)
 	}
 	count = 0;
 	nnotes = 0;
+	nocb = 0;
 
 	while (fgets(line, sizeof(line), f) != NULL) {
 		a = b = 0;
@@ -134,6 +137,9 @@ run_heap(FILE * f)
 			continue;
 		if (stop)
 			continue;
+		if (strcmp(op, "nocb") == 0) { if (H == NULL) nocb = 1; continue; }
+		if (nocb && (strcmp(op, "delete") == 0 || strcmp(op, "increase") == 0 || strcmp(op, "decrease") == 0))
+			continue;		/* (operations by handle need the callback) */
 		if (strcmp(op, "create") == 0) {
 			/* create e:k e:k ... */
 			void * ptrs[MAXEL];
@@ -149,7 +155,7 @@ run_heap(FILE * f)
 			}
 			if (H != NULL)
 				continue;
-			H = ptrheap_create(compar, setrc, NULL, n, ptrs);
+			H = ptrheap_create(compar, nocb ? NULL : setrc, NULL, n, ptrs);
 			count = (int)n;
 			vt_begin("h_create"); vt_ints("els", ids, n); vt_ints("keys", keys, n);
 			vt_bool("ok", H != NULL); vt_notes(); common(); vt_end();
@@ -160,7 +166,7 @@ run_heap(FILE * f)
 			continue;
 		}
 		if (H == NULL) {
-			H = ptrheap_init(compar, setrc, NULL);
+			H = ptrheap_init(compar, nocb ? NULL : setrc, NULL);
 			vt_begin("h_init"); vt_bool("ok", H != NULL); common(); vt_end();
 			if (H == NULL)
 				continue;
@@ -301,7 +307,7 @@ run_tq(FILE * f)
 			tv.tv_sec = b; tv.tv_usec = c;
 			tents[a].cookie = timerqueue_add(Q, &tv, &tents[a]);
 			if (tents[a].cookie != NULL) { tents[a].in = 1; tents[a].s = b; tents[a].u = c; n++; }
-			vt_begin("t_add"); vt_int("id", a); vt_int("s", b); vt_int("u", c);
+			vt_begin("t_add"); vt_int("id", a); vt_int("sh", (long long)(b) >> 30); vt_int("s", (long long)(b) & 0x3fffffff); vt_int("u", c);
 			vt_bool("ok", tents[a].cookie != NULL); common(); vt_end();
 		} else if (strcmp(op, "tdelete") == 0) {
 			if (a < 1 || a > MAXEL || !tents[a].in)
@@ -317,11 +323,11 @@ run_tq(FILE * f)
 			tv.tv_sec = b; tv.tv_usec = c;
 			timerqueue_increase(Q, tents[a].cookie, &tv);
 			tents[a].s = b; tents[a].u = c;
-			vt_begin("t_increase"); vt_int("id", a); vt_int("s", b); vt_int("u", c); vt_end();
+			vt_begin("t_increase"); vt_int("id", a); vt_int("sh", (long long)(b) >> 30); vt_int("s", (long long)(b) & 0x3fffffff); vt_int("u", c); vt_end();
 		} else if (strcmp(op, "tgetmin") == 0) {
 			tvp = timerqueue_getmin(Q);
 			vt_begin("t_getmin"); vt_bool("none", tvp == NULL);
-			vt_int("s", tvp ? (long)tvp->tv_sec : 0); vt_int("u", tvp ? (long)tvp->tv_usec : 0); vt_end();
+			vt_int("sh", (long long)(tvp ? (long)tvp->tv_sec : 0) >> 30); vt_int("s", (long long)(tvp ? (long)tvp->tv_sec : 0) & 0x3fffffff); vt_int("u", tvp ? (long)tvp->tv_usec : 0); vt_end();
 		} else if (strcmp(op, "tgetptr") == 0) {
 			tv.tv_sec = a; tv.tv_usec = b;
 			id = tentid(timerqueue_getptr(Q, &tv));
@@ -329,15 +335,15 @@ run_tq(FILE * f)
 				if (!tents[id].in) stop = 1;
 				tents[id].in = 0; n--;
 			}
-			vt_begin("t_getptr"); vt_int("s", a); vt_int("u", b); vt_int("id", id); vt_end();
+			vt_begin("t_getptr"); vt_int("sh", (long long)(a) >> 30); vt_int("s", (long long)(a) & 0x3fffffff); vt_int("u", b); vt_int("id", id); vt_end();
 		}
 	}
 	/* Drain with a time later than everything. */
 	if (Q != NULL && !stop) {
-		tv.tv_sec = 2000000000; tv.tv_usec = 0;		/* later than any time a program uses */
+		tv.tv_sec = 4000000000000LL; tv.tv_usec = 0;		/* later than any time a program uses */
 		for (i = 0; i <= MAXEL + 1; i++) {
 			id = tentid(timerqueue_getptr(Q, &tv));
-			vt_begin("t_getptr"); vt_int("s", 2000000000); vt_int("u", 0); vt_int("id", id); vt_end();
+			vt_begin("t_getptr"); vt_int("sh", (long long)(4000000000000LL) >> 30); vt_int("s", (long long)(4000000000000LL) & 0x3fffffff); vt_int("u", 0); vt_int("id", id); vt_end();
 			if (id <= 0)
 				break;
 			tents[id].in = 0;
